@@ -18,6 +18,7 @@ import (
 	"github.com/nspcc-dev/neo-go/pkg/neotest"
 	"github.com/nspcc-dev/neo-go/pkg/util"
 	"github.com/nspcc-dev/neo-go/pkg/vm/opcode"
+	"github.com/nspcc-dev/neo-go/pkg/wallet"
 
 	"verif/harness/internal/hx"
 	"verif/harness/internal/prng"
@@ -342,6 +343,44 @@ func (c *cand) calculator() {
 	c.calc = c.need + exec
 }
 
+// neotestSigner wraps an account of the harness as a neotest.Signer (nil for hand-made scripts).
+func neotestSigner(a *acct) neotest.Signer {
+	if a.m == 0 {
+		return neotest.NewSingleSigner(wallet.NewAccountFromPrivateKey(a.privs[0]))
+	}
+	if !strings.HasPrefix(a.name, "NC") {
+		accs := make([]*wallet.Account, len(a.privs))
+		for i, p := range a.privs {
+			accs[i] = wallet.NewAccountFromPrivateKey(p)
+			if err := accs[i].ConvertMultisig(a.m, pubsOf(a.privs)); err != nil {
+				panic(err)
+			}
+		}
+		return neotest.NewMultiSigner(accs...)
+	}
+	return nil
+}
+
+// crossCheckNeotest compares the calculator with pkg/neotest's AddNetworkFee (basic.go:338-366).
+func (c *cand) crossCheckNeotest(o *hx.Out, k int) {
+	var sg []neotest.Signer
+	for _, a := range c.accts {
+		s := neotestSigner(a)
+		if s == nil {
+			return
+		}
+		sg = append(sg, s)
+	}
+	cp := c.tx.Copy()
+	cp.NetworkFee = 0
+	cp.Scripts = nil
+	neotest.AddNetworkFee(c.s.w.tb, c.s.w.bc, cp, sg...)
+	o.Count("calc:neotest-crosscheck")
+	if cp.NetworkFee != c.calc {
+		o.Fail("calculator-vs-neotest", k, "neotest.AddNetworkFee = %d, calculator = %d", cp.NetworkFee, c.calc)
+	}
+}
+
 // finish sets NetworkFee = calculator + delta and signs.
 func (c *cand) finish(delta int64) {
 	c.calculator()
@@ -456,7 +495,7 @@ func (c *cand) admitLine(rec recInfo, onChainHashes map[util.Uint256]bool, p poo
 	}
 	tx := c.tx
 	scriptOk := !(len(tx.Script) >= 2 && tx.Script[0] == byte(opcode.JMP))
-	fmt.Fprintf(&b, " %d %d %d %d %d", b2i(scriptOk), tx.SystemFee, tx.NetworkFee, tx.ValidUntilBlock, wireSize)
+	fmt.Fprintf(&b, " %d %d %d %d %d %d %d", tx.Version, len(tx.Script), b2i(scriptOk), tx.SystemFee, tx.NetworkFee, tx.ValidUntilBlock, wireSize)
 	fmt.Fprintf(&b, " %d", len(tx.Signers))
 	for i, sg := range tx.Signers {
 		fmt.Fprintf(&b, " %d %d %s", s.id(sg.Account), b2i(sg.Scopes == transaction.None), c.witToken(i))
@@ -563,7 +602,12 @@ func submit(o *hx.Out, k int, w *world, tx *transaction.Transaction, tag string)
 			continue
 		}
 		if v != ref {
-			o.Fail("encoding-verdict-differs", k, "%s: verdict %s on %s, %s on bytes", tag, v, e, ref)
+			key := "encoding-verdict-differs"
+			if e == "json" && ref == "decode-error" && len(tx.Signers)+len(tx.Attributes) > transaction.MaxAttributes {
+				// isValid (shared by all decoders) has no count check; only the binary decoders enforce MaxAttributes
+				key = "json-accepts-over-maxattributes"
+			}
+			o.Fail(key, k, "%s: verdict %s on %s, %s on bytes (%d signers, %d attributes)", tag, v, e, ref, len(tx.Signers), len(tx.Attributes))
 		}
 	}
 	return ref, txs["bytes"]
@@ -577,6 +621,7 @@ var invKinds = []string{
 	"fee+", "expired", "vub-far", "blocked", "bad-script", "sysfee-big", "on-chain", "stub-common", "stub-disjoint", "stub-old",
 	"bad-sig", "missing-sig", "wrong-key", "empty-verif", "swapped-sigs", "nvb-future", "conflicts-dup", "conflicts-onchain",
 	"hp-no-committee", "reserved", "oracle", "notary", "no-funds", "dup-signers", "below-need", "pool-dup", "two", "noncanon",
+	"at-need", "oversized", "max-size", "dup-attr", "too-many", "version", "empty-script",
 }
 
 func admitCase(f *hx.Flags, o *hx.Out, k int, r *prng.R) {
@@ -656,6 +701,22 @@ func runAdmit(o *hx.Out, k int, r *prng.R, inv string) {
 	case "missing-sig", "swapped-sigs":
 		if s.B.m < 2 && inv == "swapped-sigs" || !containsAcct(signers, s.B) {
 			signers = append(signers[:0:0], s.B)
+		}
+	}
+	if inv == "dup-signers" {
+		// the same account twice, both witnesses valid
+		signers = append(signers, signers[r.Intn(len(signers))])
+	}
+	if inv == "oversized" || inv == "max-size" {
+		// many signers with bulky witness rules; only the sender needs funds
+		signers = []*acct{s.A, s.B}
+		for i := 0; i < 11; i++ {
+			signers = append(signers, singleAcct(fmt.Sprintf("X%d", i), keyPool[700+i]))
+		}
+	}
+	if inv == "too-many" {
+		for i := 0; len(signers) < 17; i++ {
+			signers = append(signers, singleAcct(fmt.Sprintf("X%d", i), keyPool[700+i]))
 		}
 	}
 	pads := []int{0, 0, 10, 250, 251, 252, 253, r.Range(0, 3000)}
@@ -744,14 +805,79 @@ func runAdmit(o *hx.Out, k int, r *prng.R, inv string) {
 			tx.Attributes = append(tx.Attributes, transaction.Attribute{Type: transaction.OracleResponseT, Value: &transaction.OracleResponse{ID: r.U64() % 5, Code: transaction.Success, Result: r.Bytes(r.Intn(4))}})
 		case "notary":
 			tx.Attributes = append(tx.Attributes, transaction.Attribute{Type: transaction.NotaryAssistedT, Value: &transaction.NotaryAssisted{NKeys: uint8(r.Intn(4))}})
-		case "below-need":
+		case "below-need", "at-need":
 			delta = 0 // set below
+		case "dup-attr":
+			// two attributes of a type that allows one
+			switch r.Intn(2) {
+			case 0:
+				tx.Attributes = dropAttr(tx.Attributes, transaction.NotValidBeforeT)
+				for i := 0; i < 2; i++ {
+					tx.Attributes = append(tx.Attributes, transaction.Attribute{Type: transaction.NotValidBeforeT, Value: &transaction.NotValidBefore{Height: uint32(i)}})
+				}
+			default:
+				signers0 := containsAcct(signers, s.committee)
+				_ = signers0
+				tx.Attributes = dropAttr(tx.Attributes, transaction.HighPriority)
+				tx.Attributes = append(tx.Attributes, transaction.Attribute{Type: transaction.HighPriority}, transaction.Attribute{Type: transaction.HighPriority})
+			}
+		case "version":
+			tx.Version = uint8(r.Range(1, 255))
+		case "empty-script":
+			tx.Script = nil
+		case "too-many", "dup-signers":
+			// built into the signer list
+		case "max-size":
+			expect = "ok"
+		case "oversized":
+			// sized below
 		}
 	}
-	if len(tx.Attributes)+len(tx.Signers) > transaction.MaxAttributes {
-		tx.Attributes = tx.Attributes[:transaction.MaxAttributes-len(tx.Signers)]
+	if len(tx.Attributes)+len(tx.Signers) > transaction.MaxAttributes && inv != "too-many" {
+		tx.Attributes = tx.Attributes[:max(0, transaction.MaxAttributes-len(tx.Signers))]
+	}
+	if inv == "too-many" && r.Bool() {
+		// 16 signers are fine, the attributes make it 17 entries
+		tx.Signers = tx.Signers[:16]
+		c.accts, c.wk, c.which = c.accts[:16], c.wk[:16], c.which[:16]
+		signers = signers[:16]
+		tx.Attributes = []transaction.Attribute{{Type: transaction.NotValidBeforeT, Value: &transaction.NotValidBefore{Height: 0}}}
+	}
+	if inv == "oversized" || inv == "max-size" {
+		bulkUp(r, tx)
+		target := transaction.MaxTransactionSize
+		if inv == "oversized" {
+			target += []int{1, 1, 2, 3, r.Range(1, 500)}[r.Intn(5)]
+		} else {
+			target -= []int{0, 0, 0, 1, r.Range(0, 500)}[r.Intn(5)]
+		}
+		for it := 0; it < 3; it++ {
+			c.finish(0)
+			adj := target - len(tx.Bytes())
+			if adj == 0 {
+				break
+			}
+			n := len(tx.Script) + adj
+			if n < 300 || n > transaction.MaxScriptLength {
+				panic(fmt.Sprintf("cannot reach size %d (script would be %d bytes)", target, n))
+			}
+			sc := make([]byte, n)
+			sc[0] = byte(opcode.PUSH1)
+			for i := 1; i < n; i++ {
+				sc[i] = byte(opcode.NOP)
+			}
+			tx.Script = sc
+		}
 	}
 	c.finish(delta)
+	if len(signers) <= 5 {
+		c.crossCheckNeotest(o, k)
+	}
+	if inv == "at-need" {
+		// exactly size*feePerByte + attribute fees: nothing left for the witnesses
+		tx.NetworkFee = c.need
+		c.sign()
+	}
 	if inv == "below-need" || second == "below-need" {
 		// strictly below size*feePerByte + attribute fees
 		if c.need == 0 {
@@ -783,16 +909,6 @@ func runAdmit(o *hx.Out, k int, r *prng.R, inv string) {
 		case "empty-verif":
 			c.applyWit(r, wi, witEmpty)
 		}
-	}
-	if inv == "dup-signers" {
-		tx.Signers = append(tx.Signers, tx.Signers[0])
-		tx.Scripts = append(tx.Scripts, tx.Scripts[0])
-		c.accts = append(c.accts, c.accts[0])
-		c.wk = append(c.wk, c.wk[0])
-		c.which = append(c.which, c.which[0])
-		c.sigs = append(c.sigs, c.sigs[0])
-		fresh := tx.Copy()
-		*tx = *fresh
 	}
 	if inv == "no-funds" {
 		bal := w.bc.GetUtilityTokenBalance(tx.Sender(), util.Uint160{})
@@ -863,6 +979,9 @@ func runAdmit(o *hx.Out, k int, r *prng.R, inv string) {
 	// ---- run the real code --------------------------------------------------------------
 	raw := tx.Bytes()
 	verdict, decoded := submit(o, k, w, tx, inv)
+	if verdict == "decode-error" {
+		verdict = "err:malformed"
+	}
 	o.Count("verdict:" + verdict)
 	if decoded != nil {
 		// size: what the calculator predicted is the wire size (only when the witnesses are the standard ones)
@@ -906,6 +1025,7 @@ func runAdmit(o *hx.Out, k int, r *prng.R, inv string) {
 		}
 	} else {
 		o.Count("admit:not-decodable")
+		o.Line(c.admitLine(rec, onChain, poolInfo{}, len(raw)), verdict)
 	}
 
 	// ---- the statement's oracle on the real code ------------------------------------------
@@ -959,6 +1079,24 @@ func runAdmit(o *hx.Out, k int, r *prng.R, inv string) {
 	o.Seen(fmt.Sprintf("admit/%s/%s/%d/%d/%d/%s", inv, second, len(tx.Signers), len(tx.Attributes), len(raw), verdict))
 	if k%50 == 0 {
 		o.Sample(fmt.Sprintf("admit %s: signers %s attrs %d size %d fee %d (calc %d) -> %s", inv, acctNames(signers), len(tx.Attributes), len(raw), tx.NetworkFee, c.calc, verdict))
+	}
+}
+
+// bulkUp gives every signer 16 witness rules of 16 script hashes each (~5.5 KB per signer).
+func bulkUp(r *prng.R, tx *transaction.Transaction) {
+	for i := range tx.Signers {
+		sg := &tx.Signers[i]
+		sg.Scopes = transaction.Rules
+		sg.Rules = nil
+		for j := 0; j < 16; j++ {
+			var or transaction.ConditionOr
+			for l := 0; l < 16; l++ {
+				var h util.Uint160
+				copy(h[:], r.Bytes(20))
+				or = append(or, (*transaction.ConditionScriptHash)(&h))
+			}
+			sg.Rules = append(sg.Rules, transaction.WitnessRule{Action: transaction.WitnessAllow, Condition: &or})
+		}
 	}
 }
 
